@@ -3,7 +3,7 @@ import GoomVerif.Model.Cursor
 /-! Driver for C05.
     `c05.serve <n> <cur>`                         → `idx=<i> cur=<c>`  (`idx=oob` when the index is out of range: Go panics)
     `c05.seq <target> <op> <op> …`                → observations of the calls, then the final `When` state
-       ops: `mR:v` `mW:<cond>` `mS:v,v,…` `wR:v` `wA:v` `wS:v,v,…` `wW:<cond>` `C:a`; cond = `e<a>` | `i<a>,<b>,…` | `y`
+       ops: `mR:v` `mW:<cond>` `mS:v,v,…` `wR:v` `wA:v` `wS:v,v,…` `wW:<cond>` `wM:a=v,a=v,…` (Matches) `C:a`; cond = `e<a>` | `i<a>,<b>,…` | `y`
     `c05.hist <n> <ev> <ev> …`                    → `admitted cur=<c> calls=<k>` | `rejected at <index>`
        events: `i<t>` (inv) `s<t>` (internal step) `r<t>=<v>` (resp) -/
 namespace Drv.C05
@@ -19,6 +19,11 @@ def parseCond (s : String) : Option Cond :=
   | 'i' :: r => (parseList (String.ofList r)).map .isIn
   | _ => none
 
+def parsePairs (s : String) : Option (List (Nat × Nat)) :=
+  (s.splitOn ",").mapM (fun p => match p.splitOn "=" with
+    | [a, v] => do let a ← parseNat a; let v ← parseNat v; pure (a, v)
+    | _ => none)
+
 def parseOp (tok : String) : Option Op :=
   match tok.splitOn ":" with
   | [k, a] =>
@@ -30,6 +35,7 @@ def parseOp (tok : String) : Option Op :=
     | "wA" => (parseNat a).map .wAnd
     | "wS" => (parseList a).map .wRets
     | "wW" => (parseCond a).map .wWhen
+    | "wM" => (parsePairs a).map .wMatches
     | "C" => (parseNat a).map .call
     | _ => none
   | _ => none
